@@ -16,7 +16,7 @@ Non-trivial = culprit not on line 1, or preceded on its line by a multi-byte cha
         "lone CR line ends are not generated (the quantifier lists LF and CRLF)",
     ],
     max_len: 400,
-    quick_cases: 60_000,
+    quick_cases: 150_000,
     thorough_cases: 2_000_000,
     case,
     systematic: None,
